@@ -26,6 +26,17 @@ CHECKS = {
         design="5 C10"),
 }
 
+CHECKS["C12"] = dict(
+    text=("Segments.tla (one action per branch of the flag-driven reassembly chain, history-free state: per-APID open group, "
+          "used ids, last output, last warning) is model-checked by TLC over every history up to the length bound over 2 APIDs x "
+          "4 flags x real 14-bit counts around the wrap; the pinned tree's behaviour (group left in place after LAST) is kept "
+          "as AsIs and must violate OpenUnused. Every history of length 3 and simulated histories of depth 12 are replayed "
+          "through the real packet_generator (outputs identified by payload bytes, three secondary-header lengths), and random "
+          "long multi-APID histories run on the real generator are validated against the same Step action by Trace_Segments."),
+    note="Warnings are compared as per-history counts of the two warning kinds. " + TRUSTED,
+    technique="TLA+ state-machine spec + TLC exhaustive histories; behaviour export (BFS + simulation) replayed into code; trace validation",
+    design="5 C12")
+
 NOT_YET = {}
 for _i in range(1, 21):
     _p = f"C{_i:02d}"
